@@ -158,6 +158,9 @@ type Node struct {
 	Parallel   bool     `json:"parallel,omitempty"`
 	Subs       []string `json:"subs,omitempty"`
 	Goroutines bool     `json:"goroutines,omitempty"`
+	// SkipAfterSubs: the skip wrapper is called after the sub-tests were started (they ran, or,
+	// when parallel, are paused and run after this test function returns)
+	SkipAfterSubs bool `json:"skip_after_subs,omitempty"`
 }
 
 type Scenario struct {
